@@ -499,9 +499,12 @@ impl Scope {
         let module = module.with_forwarded();
         match as_n {
             UseAs::KeepName => {
+                let name =
+                    name.rfind([':', '/']).map_or(name, |i| &name[i + 1..]);
+                let name = name.strip_prefix('_').unwrap_or(name);
                 let name = name
-                    .rfind([':', '/'])
-                    .map_or(name, |i| &name[i + 1..])
+                    .split_once('.')
+                    .map_or(name, |(base, _ext)| base)
                     .replace('_', "-");
                 self.define_module(name, module.expose(expose));
             }
